@@ -152,6 +152,11 @@ def check_process_interrupt(sc, out, facts, d) -> list:
     backend = sc['backend']
     first = sigs[0][0]
     second = sigs[1][0] if len(sigs) > 1 else None
+    if not sc.get('cof', True) and any(e[0] == 'complete' and len(e) > 2 and e[2] != 'ok' for e in out.events[:first]):
+        # continue_on_failure=False and a failure had been processed before the interrupt arrived: run_tasks was
+        # already on its way out with LabError (the tasks still running are abandoned, as that mode specifies);
+        # which of the two exceptions leaves it is not for this property to say
+        return cache_consistency('C14', sc, d, backend='process')
     if out.kind == 'abort':
         code = 'waited-for-workers' if (second is not None and out.abort == 'deadlock') else 'no-termination'
         return [O.V('C14', code, f'{out.abort}: {out.abort_detail[:240]}', backend='process', interrupts=len(sigs))]
@@ -369,7 +374,7 @@ class C14(Check):
 
     # -- S2 sampled
     def gen(self, ch, tier):
-        sc = gen_scenario(ch, backends=[('fork', 3), ('spawn', 2)], cache='sometimes', cof=(True, False), max_nodes=7)
+        sc = gen_scenario(ch, backends=[('fork', 3), ('spawn', 2)], cache='sometimes', cof=(True, False), max_nodes=7, fail=1)
         ft = ch.stream('fault')
         sc['observe_after'] = False
         n_int = 1 + ft.weighted([3, 3])
